@@ -19,6 +19,7 @@ import (
 	"os"
 	"path/filepath"
 	"strings"
+	"sync/atomic"
 	"syscall"
 	"time"
 
@@ -414,6 +415,7 @@ func (r *run) deliver(timeout time.Duration) bool {
 		}
 		select {
 		case g.drvCh <- b:
+			atomic.AddInt32(&r.n.inflight, 1)
 			r.c.Emit(tr.M{"ev": "deliver", "n": b.Num, "v": r.c.name(b.Num, b.Hash), "fin": b.IsFinalizedBlock})
 			return true
 		default:
@@ -442,6 +444,23 @@ func (r *run) quiesce() bool {
 		if r.n.genCount() != gens {
 			gens = r.n.genCount()
 			reset()
+		}
+		// the detector's removal after an acknowledged reorg comes first: the subscriber's tracked list is locked until it is
+		// done, a driver call released before it would wait for it
+		if w := r.e.find("rd"); w != nil && w.key == "acked" {
+			if !r.e.release(w, false, stuckWait) {
+				r.stuck = "hand-over did not finish"
+				return false
+			}
+			if !r.e.await(func() bool { return r.e.find("rd") != nil }, stuckWait) {
+				r.stuck = "nobody arrived after " + w.key
+				return false
+			}
+			reset()
+			inTick = false
+			staleSince, newSecond = time.Time{}, false
+			r.lastDetect = time.Now().Unix()
+			continue
 		}
 		if w := r.e.find("drv"); w != nil {
 			if w.key == lastDrv {
